@@ -35,7 +35,7 @@ try:
 finally:
     sh("git -C /repo checkout -- .")
     assert sh("git -C /repo status --porcelain").stdout.strip() == ""
-out = os.path.join(V, "seeded", pid)
+out = os.path.join(V, "seeded", os.environ.get("SEED_OUT", pid))
 os.makedirs(out, exist_ok=True)
 for f in os.listdir(seed_dir):
     src = os.path.join(seed_dir, f)
